@@ -13,7 +13,8 @@ Two parts, one evidence file (LEVEL = model_checking).
                        (quick: the first 4096 of them; thorough: all 10**6) before and after the epoch
       kind groups      DDL, DML (0 / 1 / n affected rows), USE, BEGIN/COMMIT/ROLLBACK, SET/UNSET, SHOW/DESCRIBE, query
                        expression forms, semi-structured results, failing statements (the C07 catalogue), statements
-                       without a current database / schema, row counts around DuckDB's vector size
+                       without a current database / schema, row counts around DuckDB's vector size and one row more
+                       than an Arrow record batch holds (10**6 + 1)
       login groups     database+schema / database only / none / lower case / new names; shared, isolated, path-backed
     Oracle (per statement, comparison functions in mc/ref/c17_model.py):
       C17.no_500       no response of the server has status >= 500
@@ -46,13 +47,11 @@ Two parts, one evidence file (LEVEL = model_checking).
                           session appears or disappears
       C17.s.no_500        no response has status >= 500
 
-Not demanded: statement parameters bound server side (qmark; the server ignores the `bindings` of the request);
-multi-statement requests; an empty statement (the connector does not send it); the content of the status row of USE /
-BEGIN (in-process gives no row at all there, C06); equality of description when the in-process fake has none (its
-description raises, C06); two logins naming the same FAKESNOW_DB_PATH; more than 3 tokens; results of more than one
-Arrow batch (> 10**6 rows: 'multi-batch' responses are not implemented by the server at all); non-deterministic
-functions (CURRENT_TIMESTAMP, UUID_STRING, RANDOM without seed).  The connector is told not to retry
-(cursor.execute(_no_retry=True)) so that every statement is sent exactly once.
+Not demanded: statement parameters bound server side (qmark; the server ignores the `bindings` of the request); an
+empty statement (the connector does not send it); equality of description when the in-process fake has none (its
+description raises, C06); two logins naming the same FAKESNOW_DB_PATH; more than 3 tokens; non-deterministic functions
+(CURRENT_TIMESTAMP, UUID_STRING, RANDOM without seed); what the connector does when it is allowed to retry: it is told
+not to (cursor.execute(_no_retry=True)), so that every statement is sent exactly once.
 
 Class keys: C17.rows / C17.pytype / C17.description are keyed by the Snowflake type of the *column* as reported by the
 in-process description (col=TIMESTAMP_NTZ,cell=null), C17.rowcount by the in-process rowcount bucket (0 / 1 / >1),
@@ -100,13 +99,14 @@ class _StatusRecorder:
     _no_retry=True not retried).  The exception is therefore dropped here *after* the 500 response went out; the
     status is recorded like any other."""
 
-    def __init__(self, app, log):
-        self.app = app
+    def __init__(self, mod, log):
+        self.mod = mod  # the application is looked up per request: reset_server() re-imports the module
         self.log = log
 
     async def __call__(self, scope, receive, send):
+        app = self.mod.app
         if scope["type"] != "http":
-            return await self.app(scope, receive, send)
+            return await app(scope, receive, send)
         started = []
 
         async def _send(message):
@@ -116,7 +116,7 @@ class _StatusRecorder:
             await send(message)
 
         try:
-            await self.app(scope, receive, _send)
+            await app(scope, receive, _send)
         except Exception:
             if not started:
                 raise
@@ -138,7 +138,7 @@ def server():
     sock.bind(("127.0.0.1", 0))
     log: list = []
     # no idle / time based behaviour: a keep-alive connection must never be dropped because the machine is busy
-    cfg = uvicorn.Config(_StatusRecorder(fsrv.app, log), log_level="critical", log_config=None, access_log=False,
+    cfg = uvicorn.Config(_StatusRecorder(fsrv, log), log_level="critical", log_config=None, access_log=False,
                          timeout_keep_alive=86400, timeout_graceful_shutdown=1)
     srv = uvicorn.Server(cfg)
     th = threading.Thread(target=srv.run, kwargs={"sockets": [sock]}, name="c17-server", daemon=True)
@@ -155,19 +155,19 @@ def server():
 
 
 def reset_server():
-    """Equivalent of restarting the server process: fresh shared instance, no sessions."""
+    """Equivalent of restarting the server process: fakesnow.server is re-imported (importlib.reload), which re-creates
+    ALL of its module-level state (today: shared_fs and sessions), after the engine handles of the old state have been
+    closed.  The listening uvicorn server keeps running; it looks the application up on every request."""
+    import importlib
+
     s = server()
     fsrv = s["mod"]
-    from fakesnow.instance import FakeSnow
-
-    for c in list(fsrv.sessions.values()):
+    for c in list(getattr(fsrv, "sessions", {}).values()):
         with contextlib.suppress(Exception):
             c._duck_conn.close()  # noqa: SLF001
-    fsrv.sessions.clear()
-    old = fsrv.shared_fs
-    fsrv.shared_fs = FakeSnow()
     with contextlib.suppress(Exception):
-        old.duck_conn.close()
+        fsrv.shared_fs.duck_conn.close()
+    importlib.reload(fsrv)
     del s["log"][:]
 
 
@@ -637,13 +637,19 @@ K_NOCTX = [
 ]
 
 ROWCOUNTS_QUICK = [0, 1, 2, 2047, 2048, 2049, 5000]
-ROWCOUNTS_THOROUGH = ROWCOUNTS_QUICK + [3, 1000, 4096, 4097, 122880, 122881, 300000]
+ROWCOUNTS_THOROUGH = ROWCOUNTS_QUICK + [3, 1000, 4096, 4097, 122880, 122881, 300000, 1000000]
+ARROW_BATCH_ROWS = 1_000_000  # DuckDB hands its result to Arrow in record batches of this many rows
+ROWCOUNT_MULTI_BATCH = ARROW_BATCH_ROWS + 1
 
 
 def rows_stream(tier):
     out = []
     for n in ROWCOUNTS_QUICK if tier == "quick" else ROWCOUNTS_THOROUGH:
-        out.append(S(f"rows[{n}]", f"select range as I, range::varchar as S from range({n}) order by I", cls="stmt=n_rows"))
+        out.append(S(f"rows[{n}]", f"select range as I, range::varchar as S from range({n}) order by I", cls="stmt=n_rows", vclass="one_arrow_batch"))
+    n = ROWCOUNT_MULTI_BATCH
+    out.append(S(f"rows[{n}]", f"select range as I from range({n}) order by I", cls="stmt=n_rows", vclass="more_than_one_arrow_batch"))
+    out.append(S(f"rows_with_timestamp[{n}]", f"select range as I, '2020-01-01 00:00:00.5'::timestamp_ntz as T from range({n}) order by I",
+                 cls="stmt=n_rows", vclass="more_than_one_arrow_batch"))
     return out
 
 
@@ -1007,7 +1013,7 @@ def apply_real(live, op):
 
 def check_transition(model_before, model_after, op, exp, got, statuses, gt_before, gt_after, acc, rp):
     """All oracle clauses of part (b) for one transition.  Returns True if the real state is the model's."""
-    opk = op[0] if op[0] != "query" else f"query:{op[2]}"
+    opk = op[0] if op[0] != "query" else f"query:{'use_schema' if op[2] in ('use1', 'use2') else op[2]}"
     if op[0] == "noauth":
         opk = f"noauth:{op[1]}"
     acc.count("transitions")
